@@ -27,8 +27,9 @@ def scores(rng, n, style):
     if style == "ties":
         return [rng.randint(0, 3) / 4 for _ in range(n)]
     if style == "distinct":
-        xs = rng.sample(range(0, 64), n)
-        return [x / 64 for x in xs]
+        den = 64 if n <= 64 else 1024
+        xs = rng.sample(range(0, den), n)
+        return [x / den for x in xs]
     return [rng.randint(0, 16) / 16 for _ in range(n)]
 
 
